@@ -505,7 +505,7 @@ func c11HarnessV(malformed, lastBoxEOF bool) mc.Harness {
 			if t.degenerate && what == "" && err == nil && p != b.End {
 				fail("top-level-position", fmt.Sprintf("after %s on top-level box %d (%s, %d..%d; one child has degenerate content, all sizes honest) the reader stands at %d although no error was returned", call, k, b.Type, b.Start, b.End, p))
 			}
-			if p > b.End && b.SizeDelta == 0 && !anyOverstated(b) {
+			if p > b.End && b.SizeDelta == 0 {
 				fail("read-past-top-level-box", fmt.Sprintf("after %s on top-level box %d (%s, %d..%d) the reader stands at %d", call, k, b.Type, b.Start, b.End, p))
 			}
 			return err == nil && p == b.End
@@ -575,17 +575,6 @@ func c11HarnessV(malformed, lastBoxEOF bool) mc.Harness {
 	}
 }
 
-func anyOverstated(b *gen.Box) bool {
-	if b.SizeDelta != 0 {
-		return true
-	}
-	for _, c := range b.Children {
-		if anyOverstated(c) {
-			return true
-		}
-	}
-	return false
-}
 
 func init() {
 	register(&mc.Check{Property: "C11", Setup: defaultLogger,
